@@ -28,7 +28,9 @@ def cmp_holds(cmps, b):
 
 def edge_run(tier, seed):
     t0 = time.time()
-    env = {"FAM": "small" if tier == "quick" else "big", "MAXRANGES": "2" if tier == "quick" else "3"}
+    # quick: classes of up to 2 ranges over the small family; thorough: up to 2 ranges over the large family (3 ranges
+    # over the large family is hours of TLC time for no new kind of shape: a third range only repeats the folding step)
+    env = {"FAM": "small" if tier == "quick" else "big", "MAXRANGES": "2"}
     cache = os.path.join(workdir(), "edge-%s-%s.json" % (tier, sha(harness_hash(), json.dumps(env))[:12]))
     if os.path.exists(cache):
         return json.load(open(cache))
